@@ -149,8 +149,10 @@ func NewSplitCarReader(
 
 		// if local file, check the size:
 		if _, ok := fi.(*FileSplitCarReader); ok {
-			expectedSize := int(cf.HeaderSize) + int(cf.ContentSize) // NOTE: valid only for pre-upload split CARs. They get padded after upload.
-			if size != expectedSize {
+			// NOTE: pieces written by split-car carry a subset (and epoch) node after the content,
+			// and pieces get padded after upload: the file may be longer, never shorter.
+			expectedSize := int(cf.HeaderSize) + int(cf.ContentSize)
+			if size < expectedSize {
 				return nil, fmt.Errorf(
 					"remote file %q has unexpected size: saved=%d actual=%d (diff=%d)",
 					cf.Name,
